@@ -53,6 +53,8 @@ CONFIGS = {
     "strict": {"features": "fast-tlsh/default,fast-tlsh/strict-parser,easy,serde", "rustflags": ""},
     "serde": {"features": "fast-tlsh/default,easy,serde", "rustflags": ""},
     "serde-buf": {"features": "fast-tlsh/default,fast-tlsh/serde-buffered,easy,serde", "rustflags": ""},
+    "serde-buf-strict": {"features": "fast-tlsh/default,fast-tlsh/serde-buffered,fast-tlsh/strict-parser,easy,serde",
+                         "rustflags": ""},
     "unsafe-strict": {"features": "fast-tlsh/default,fast-tlsh/unsafe,fast-tlsh/strict-parser,easy,serde",
                       "rustflags": ""},
     # dev profile: debug assertions + overflow checks
